@@ -146,7 +146,7 @@ def obligations(tier):
     p = dict(tmax=999 if q else 999999, tzmax=99 if q else 99999, lmsg=2 if q else 4, lid=2 if q else 3, lval=2 if q else 4)
     to = 900 if q else 7200
     return [
-        Ob("commit_fields", ob_commit_fields, [RT, MP], p, to, 3 if q else 1, ["message", "author_time", "author_tz"],
+        Ob("commit_fields", ob_commit_fields, ["breezy.revision", "breezy.foreign", RT, MP], p, to, 3 if q else 1, ["message", "author_time", "author_tz"],
            known=["C34-missing-message-export"],
            bounds="times 0..%(tmax)d, time zones +-%(tzmax)d, both negative-UTC flags, author = / != committer, encoding "
                   "header present/absent, message None or <= %(lmsg)d ASCII bytes" % p),
